@@ -340,6 +340,7 @@ pub struct ModelRun {
     pub reader: String,
     pub rend: String,
     pub errs: usize,
+    pub rd_errs: usize,
     pub join_err: bool,
     pub written: String,
     pub consumed: usize,
@@ -394,6 +395,7 @@ pub fn model_sched(
                 "reader" => m.reader = v.into(),
                 "rend" => m.rend = v.into(),
                 "errs" => m.errs = v.parse().unwrap_or(99),
+                "rderrs" => m.rd_errs = v.parse().unwrap_or(99),
                 "joinErr" => m.join_err = v == "1",
                 "written" => m.written = v.into(),
                 "consumed" => m.consumed = v.parse().unwrap_or(0),
